@@ -25,7 +25,49 @@ def sh(cmd, **kw):
   return subprocess.run(cmd, shell=True, capture_output=True, text=True, **kw)
 
 
+def recheck(name, checks):
+  """Re-run checks against an already confirmed seed (patch from seeded/)."""
+  dst = os.path.join(VERIF, 'seeded', name)
+  meta = json.load(open(os.path.join(dst, 'meta.json')))
+  scratch = f'/tmp/seedrun_{name}'
+  sh(f'git -C /repo worktree remove --force {scratch}')
+  r = sh(f'git -C /repo worktree add -q --detach {scratch} HEAD')
+  assert r.returncode == 0, r.stderr
+  try:
+    r = sh(f'git -C {scratch} apply --whitespace=nowarn {dst}/patch.diff')
+    if r.returncode != 0:
+      r = sh(f'git -C {scratch} apply -3 --whitespace=nowarn {dst}/patch.diff')
+    if r.returncode != 0:
+      print(name, 'PATCH DOES NOT APPLY')
+      return 2
+    for c in checks or list(meta.get('checks', {})):
+      t0 = time.time()
+      e = dict(os.environ, VERIF_REPO=scratch, VERIF_OUT_DIR=f'/tmp/seedout_{name}')
+      rc = sh(f'{VERIF}/check {c} --tier quick', env=e, cwd=VERIF)
+      viol = [l for l in rc.stdout.splitlines() if l.startswith('VIOLATION')]
+      kinds = sorted(set(l.strip().split(':')[0] for l in rc.stdout.splitlines()
+                         if l.startswith('  ') and ':' in l))[:8]
+      meta.setdefault('checks', {})[c] = {
+          'exit': rc.returncode, 'violations': len(viol), 'kinds': kinds,
+          'wall_s': round(time.time() - t0, 1),
+          'tail': rc.stdout.strip().splitlines()[-1:]}
+      shutil.rmtree(f'/tmp/seedout_{name}', ignore_errors=True)
+    meta['detected_by'] = [c for c, v in meta['checks'].items()
+                           if v['exit'] == 1 and v['violations'] > 0]
+    meta['rechecked_at_repo_head'] = sh('git -C /repo rev-parse --short HEAD').stdout.strip()
+    meta['rechecked_at_verif_head'] = sh(f'git -C {VERIF} rev-parse --short HEAD').stdout.strip()
+    json.dump(meta, open(os.path.join(dst, 'meta.json'), 'w'), indent=1)
+    print(name, 'detected_by', meta['detected_by'],
+          {c: (v['exit'], v['violations']) for c, v in meta['checks'].items()})
+  finally:
+    sh(f'git -C /repo worktree remove --force {scratch}')
+    shutil.rmtree(scratch, ignore_errors=True)
+  return 0
+
+
 def main():
+  if sys.argv[1] == '--recheck':
+    return recheck(sys.argv[2], sys.argv[3:])
   src, name, prop = sys.argv[1:4]
   checks = sys.argv[4:] or [prop]
   scratch = f'/tmp/seedrun_{name}'
